@@ -168,7 +168,7 @@ func c19Alphabet(tier string) []c19Req {
 		add(c19Req{Label: "stopmany(" + n + ",b)", Mutate: true, Direct: func(r *app.ProjectRunner, w *World) (any, error) { return r.StopProcesses([]string{n, "b"}) },
 			Client: func(c *client.PcClient, w *World) (any, error) { return c.StopProcesses([]string{n, "b"}) }})
 	}
-	for _, variant := range []string{"same", "change-b", "remove-b", "add-c"} {
+	for _, variant := range []string{"same", "change-b", "remove-b", "add-c", "replicas-a", "replicas-r"} {
 		variant := variant
 		load := func(w *World) (*types.Project, error) {
 			return w.LoadYAML("upd-"+variant+fmt.Sprint(len(w.trace))+".yaml", c19YAML(variant))
@@ -185,6 +185,36 @@ func c19Alphabet(tier string) []c19Req {
 				return nil, err
 			}
 			return c.UpdateProject(p)
+		}})
+	}
+	for _, variant := range []string{"same", "change-b", "replicas-a"} {
+		variant := variant
+		pick := map[string]string{"same": "b", "change-b": "b", "replicas-a": "a"}[variant]
+		load := func(w *World) (*types.ProcessConfig, error) {
+			p, err := w.LoadYAML("updp-"+variant+fmt.Sprint(len(w.trace))+".yaml", c19YAML(variant))
+			if err != nil {
+				return nil, err
+			}
+			for _, pc := range p.Processes {
+				if pc.Name == pick && pc.ReplicaNum == 0 {
+					pc := pc
+					return &pc, nil
+				}
+			}
+			return nil, fmt.Errorf("no process %s in the file", pick)
+		}
+		add(c19Req{Label: "updateproc(" + variant + ")", Mutate: true, Direct: func(r *app.ProjectRunner, w *World) (any, error) {
+			pc, err := load(w)
+			if err != nil {
+				return nil, err
+			}
+			return nil, r.UpdateProcess(pc)
+		}, Client: func(c *client.PcClient, w *World) (any, error) {
+			pc, err := load(w)
+			if err != nil {
+				return nil, err
+			}
+			return nil, c.UpdateProcess(pc)
 		}})
 	}
 	// raw invalid requests: 4xx with an error body, never 5xx
@@ -233,6 +263,11 @@ func c19YAML(variant string) string {
 		pcs = []PC{pcs[0], pcs[2]}
 	case "add-c":
 		pcs = append(pcs, PC{Name: "c"})
+	case "replicas-a":
+		// an update that changes nothing but the replica count of a process is carried out as a scale request
+		pcs[0].Lines = append(pcs[0].Lines, "replicas: 2")
+	case "replicas-r":
+		pcs[2].Lines = []string{"replicas: 3"}
 	}
 	return projectYAML([]string{"vars:", "  N: 7"}, pcs...)
 }
